@@ -46,7 +46,8 @@ Definition ledger : list ((string * string * string * string * N) * site_class) 
    (("rsass/src/output/cssbuf.rs", "end_block", "intarith", "self . indent -= 2 ;", 1%N), Unmodelled);
    (("rsass/src/output/cssbuf.rs", "do_indent_no_nl", "index", "self . add_str ( & stuff [ 1 .. ] ) ;", 1%N), Unmodelled);
    (("rsass/src/output/cssdata.rs", "into_buffer", "intarith", "let mut result = Vec :: with_capacity ( mark . len ( ) + buf . len ( ) ) ;", 1%N), Unmodelled);
-   (("rsass/src/output/format.rs", "get_indent", "index", "& INDENT [ ..= len ]", 1%N), (Reachable "F1: indentation deeper than 80 columns"));
+   (("rsass/src/output/format.rs", "get_indent", "index", "& INDENT [ ..= len . min ( INDENT . len ( ) - 1 ) ]", 1%N), (Proved "indent_safe"));
+   (("rsass/src/output/format.rs", "get_indent", "intarith", "& INDENT [ ..= len . min ( INDENT . len ( ) - 1 ) ]", 1%N), (Proved "indent_nonempty"));
    (("rsass/src/output/transform.rs", "check_body", "index", "name_in ( name , & CSS_AT_RULES [ .. ] )", 1%N), Unmodelled);
    (("rsass/src/parser/css/media.rs", "args", "unwrap", "v . into_iter ( ) . next ( ) . unwrap ( )", 1%N), Unmodelled);
    (("rsass/src/parser/css/media.rs", "media_args_and", "unwrap", "v . into_iter ( ) . next ( ) . unwrap ( )", 1%N), Unmodelled);
@@ -118,19 +119,15 @@ Definition ledger : list ((string * string * string * string * N) * site_class) 
    (("rsass/src/sass/functions/string.rs", "create_module", "intarith", "len . saturating_sub ( index . unsigned_abs ( ) as usize - 1 )", 1%N), Unmodelled);
    (("rsass/src/sass/functions/string.rs", "create_module", "intarith", "min ( start_at as usize - 1 , len )", 1%N), Unmodelled);
    (("rsass/src/sass/functions/string.rs", "create_module", "intarith", "len . saturating_sub ( end_at . unsigned_abs ( ) as usize - 1 )", 1%N), Unmodelled);
-   (("rsass/src/sass/functions/string.rs", "create_module", "intarith", "st . chars ( ) . skip ( start_at ) . take ( end_at - start_at ) . collect ( ) ;", 1%N), Unmodelled);
    (("rsass/src/sass/functions/string.rs", "create_module", "intarith", "Mutex :: new ( u64 :: from ( std :: process :: id ( ) ) * 0xa01 )", 1%N), Unmodelled);
    (("rsass/src/sass/functions/string.rs", "create_module", "unwrap", "let mut v = CALL_ID . lock ( ) . unwrap ( ) ;", 1%N), Unmodelled);
    (("rsass/src/sass/functions/string.rs", "create_module", "intarith", "* v += 1 ;", 1%N), Unmodelled);
    (("rsass/src/sass/string.rs", "single_raw", "index", "&& let StringPart :: Raw ( s ) = & self . parts [ 0 ]", 1%N), Unmodelled);
-   (("rsass/src/value/colors/mod.rs", "cmp", "unwrap", "( Color :: Hsla ( a ) , Color :: Hsla ( b ) ) => a . partial_cmp ( b ) . unwrap ( ) ,", 1%N), (Reachable "F4: colour comparison with NaN channel"));
-   (("rsass/src/value/colors/mod.rs", "cmp", "unwrap", "a . partial_cmp ( & Hsla :: from ( b ) ) . unwrap ( )", 1%N), (Reachable "F4: colour comparison with NaN channel"));
-   (("rsass/src/value/colors/mod.rs", "cmp", "unwrap", "Hsla :: from ( a ) . partial_cmp ( b ) . unwrap ( )", 1%N), (Reachable "F4: colour comparison with NaN channel"));
    (("rsass/src/value/colors/rgba.rs", "cmp_chan", "unwrap", "( false , false ) => a . partial_cmp ( & b ) . unwrap ( ) ,", 1%N), Unmodelled);
    (("rsass/src/value/number.rs", "fmt", "intarith", "let max_decimals = 16 - whole . log10 ( ) . ceil ( ) as usize ;", 1%N), Unmodelled);
    (("rsass/src/value/number.rs", "fmt", "intarith", "let end = ( frac * 10. ) . round ( ) . abs ( ) as u8 ;", 1%N), Unmodelled);
    (("rsass/src/value/number.rs", "fmt", "intarith", "dec . push ( char :: from ( c as u8 + 1 ) ) ;", 1%N), Unmodelled);
-   (("rsass/src/value/range.rs", "new", "intarith", "let to = if inclusive { to + step } else { to } ;", 1%N), (Reachable "F2: `to + step` overflows i64"));
+   (("rsass/src/value/range.rs", "new", "intarith", "let to = if inclusive { to + step } else { to } ;", 1%N), Unmodelled);
    (("rsass/src/value/range.rs", "next", "intarith", "self . from += self . step ;", 1%N), Unmodelled);
    (("rsass/src/value/unitset.rs", "valid_in_css", "index", "match & self . dim [ .. ] {", 1%N), Unmodelled);
    (("rsass/src/variablescope.rs", "expose", "unwrap", "for ( name , function ) in & * self . functions . lock ( ) . unwrap ( ) {", 1%N), Unmodelled);
